@@ -8,5 +8,6 @@ package Electiontrigger
 //@   props C19
 //@   mode bv
 //@   requires t.minTimeout > 0
+//@   requires TIMEOUT_EXP_BASE == 2.0
 //@   ensures [value] result == Tspec(t.minTimeout, view)
 //@   ensures [positive] result > 0
